@@ -3,6 +3,8 @@ C19: `get_next_tasks` as a query.
 -/
 import OrqModel.Proofs.Query
 import OrqModel.Proofs.FragBlind
+import OrqModel.Proofs.GraphFixed
+import OrqModel.Model.Ops
 
 namespace Orq
 
@@ -46,5 +48,23 @@ theorem C19_next_idempotent_fragment (c c1 : Cond) (r : List Offer)
     (h : getNextTasks fragEvaluator c = (.ok r, c1)) (hr : r ≠ []) :
     getNextTasks fragEvaluator c1 = (.ok r, c1) :=
   getNextTasks_idem fragEvaluator fragEvaluator_itemsBlind c c1 r h hr
+
+/-- **C19/C14**: the definition and the graph composed from it are fixed for the life of the
+    conductor: no API call (whatever it returns or raises) changes either -/
+theorem C19_definition_and_graph_fixed (ops : List Op) (c : Cond) :
+    (runOps E ops c).spec = c.spec ∧ (runOps E ops c).graph = c.graph := by
+  induction ops generalizing c with
+  | nil => exact ⟨rfl, rfl⟩
+  | cons op ops ih =>
+    rw [runOps_cons]
+    have h1 : (runOp E op c).spec = c.spec ∧ (runOp E op c).graph = c.graph := by
+      cases op with
+      | req s => exact (requestStatus_g s).run c
+      | next => exact (getNextTasks_g E).run c
+      | report k ev => exact (updateTaskStateAux_g E 3 k ev).run c
+      | render => exact (renderOutput_g E).run c
+      | rerun reqs => exact (requestRerun_g E reqs).run c
+    obtain ⟨h2, h3⟩ := ih (runOp E op c)
+    exact ⟨h2.trans h1.1, h3.trans h1.2⟩
 
 end Orq
